@@ -211,8 +211,8 @@ fn c06_alphabets(tier: Tier) -> Vec<(Vec<u32>, usize, usize, usize)> {
     // (alphabet, max subject length, max pattern length, max replacement length)
     match tier {
         // surrogate code points and 0xFFFD are ordinary SMT characters: they must never be confused with each other
-        Tier::Quick => vec![(vec![97, 98], 6, 4, 2), (vec![0, MAX_CHAR], 3, 2, 1), (vec![0x61, 0xFFFD, 0xD800, 0xDFFF], 3, 2, 1)],
-        Tier::Thorough => vec![(vec![97, 98], 8, 5, 2), (vec![97, 98, 99], 6, 4, 2), (vec![97, 98, MAX_CHAR], 6, 3, 2), (vec![0, 1, MAX_CHAR - 1, MAX_CHAR], 4, 2, 1), (vec![0x61, 0xFFFD, 0xD800, 0xDFFF, 0x10000], 4, 2, 2)],
+        Tier::Quick => vec![(vec![97, 98], 8, 5, 1), (vec![97, 98], 5, 3, 2), (vec![0, MAX_CHAR], 3, 2, 1), (vec![0x61, 0xFFFD, 0xD800, 0xDFFF], 3, 2, 1)],
+        Tier::Thorough => vec![(vec![97, 98], 10, 6, 1), (vec![97, 98], 8, 5, 2), (vec![97, 98, 99], 6, 4, 2), (vec![97, 98, MAX_CHAR], 6, 3, 2), (vec![0, 1, MAX_CHAR - 1, MAX_CHAR], 4, 2, 1), (vec![0x61, 0xFFFD, 0xD800, 0xDFFF, 0x10000], 4, 2, 2)],
     }
 }
 
@@ -299,6 +299,18 @@ fn c06_long_cases() -> Vec<(Vec<u32>, Vec<u32>)> {
     pats.sort();
     pats.dedup();
     let mut out = vec![];
+    // proper prefixes / suffixes / infixes of long strings (block-wise comparisons start at length 8)
+    let long: Vec<u32> = (0..26).map(|i| 97 + (i * 7 % 5) as u32).collect();
+    for len in [7usize, 8, 9, 15, 16, 17, 24] {
+        for start in [0usize, 1, 2, 26 - len] {
+            if start + len <= long.len() {
+                out.push((long.clone(), long[start..start + len].to_vec()));
+                let mut near = long[start..start + len].to_vec();
+                near[len / 2] = 122;
+                out.push((long.clone(), near));
+            }
+        }
+    }
     for p in &pats {
         // subjects: partial matches of every length followed by the pattern, and the pattern overlapping itself
         for k in 0..p.len() {
@@ -549,6 +561,22 @@ fn c08_texts(tier: Tier, f: &mut dyn FnMut(usize, &str)) {
             idx += 1;
         }
     }
+    // (6) near misses of the special characters: U for u, brackets for braces, a slash for the backslash, G for a hex digit
+    for a in &at {
+        for (from, to) in [("u", "U"), ("{", "["), ("}", "]"), ("\\", "/"), ("1", "G"), ("F", "f")] {
+            let t = a.replacen(from, to, 1);
+            if t != *a {
+                for post in ["", "}", "0041", "{41}"] {
+                    f(idx, &format!("{}{}", t, post));
+                    idx += 1;
+                }
+            }
+        }
+    }
+    for b in ["\\U0041", "\\U{41}", "\\U{2FFFF}", "x\\U00e9", "\\u004G", "\\u{4g}", "\\u[41]", "/u0041", "\\\\U0041", "\\u\\U0041"] {
+        f(idx, b);
+        idx += 1;
+    }
     // (4) non-ASCII characters in and around escape attempts
     let na = ['\\', 'u', '{', '}', '1', '\u{e9}', '\u{ffff}', '\u{10000}', '\u{2ffff}', '"'];
     let mut cur: Vec<String> = vec![String::new()];
@@ -646,7 +674,7 @@ fn c08_meta(ctx: &Ctx) -> Meta {
         rule: "parser: every text of the families below is parsed and compared with an independent grammar-level reader; printer: every text viewed as a string of its own characters, every single code point 0..=0x2FFFF, and all short strings over 18 critical code points are printed, checked for printable ASCII / doubled quotes, and read back through parse_smt_literal; non-trivial = texts in which at least one escape sequence is decoded".into(),
         assumptions: vec!["the reference reader transcribes SMT-LIB 2.6: \\ud3d2d1d0 and \\u{d..} with 1-5 hex digits and value <= 0x2FFFF, every other character copied".into()],
         exhaustive: true,
-        space: format!("all texts of length <= {} over {{\\,u,{{,}},0,2,3,F,g}}; escape-shaped family (6 prefixes x brace x 0-7 digits x 6 closers); pairs of consecutive escape attempts; texts of length <= 4 with non-ASCII characters; non-ASCII prefixes in front of every escape attempt; all 196608 single code points; strings of length <= {} over 18 critical code points", if ctx.tier == Tier::Thorough { 8 } else { 6 }, if ctx.tier == Tier::Thorough { 4 } else { 3 }),
+        space: format!("all texts of length <= {} over {{\\,u,{{,}},0,2,3,F,g}}; escape-shaped family (6 prefixes x brace x 0-7 digits x 6 closers); pairs of consecutive escape attempts; texts of length <= 4 with non-ASCII characters; non-ASCII prefixes in front of every escape attempt; near misses of the special characters (U, brackets, slash, G); all 196608 single code points; strings of length <= {} over 18 critical code points", if ctx.tier == Tier::Thorough { 8 } else { 6 }, if ctx.tier == Tier::Thorough { 4 } else { 3 }),
     }
 }
 
@@ -1208,6 +1236,25 @@ fn c17_run(ctx: &Ctx, batch: usize, nb: usize, rep: &mut Report) {
             c17_viol(rep, json!({"kind": "u32", "v": v}), c17_ints_case("u32", &v));
         }
     }
+    // long vectors with one (or two) out-of-range values at every position (block-wise scans)
+    for len in [7usize, 8, 9, 15, 16, 17, 24, 33] {
+        for pos in 0..len {
+            for bad in [0x30000u32, 0x123456, u32::MAX] {
+                if !mine(&mut item) {
+                    continue;
+                }
+                let mut v: Vec<u32> = (0..len as u32).map(|i| 0x61 + i).collect();
+                v[pos] = bad;
+                rep.inc("nontrivial");
+                for kind in ["slice", "vec"] {
+                    c17_viol(rep, json!({"kind": kind, "v": v}), c17_ints_case(kind, &v));
+                }
+                let mut w = v.clone();
+                w[len - 1 - pos] = 0x2FFFF + 1 + pos as u32;
+                c17_viol(rep, json!({"kind": "vec", "v": w}), c17_ints_case("vec", &w));
+            }
+        }
+    }
     // every integer in bands around the limit, through the vector fast path
     for x in (MAX_CHAR - 40..=MAX_CHAR + 40).chain(0x3FFF0..=0x40010).chain((0x30000..0x200000).step_by(if th { 251 } else { 4099 })) {
         if !mine(&mut item) {
@@ -1324,7 +1371,7 @@ fn c17_meta(_ctx: &Ctx) -> Meta {
         rule: "every constructor (From<&str>, From<String>, From<char>, From<u32>, From<&[u32]>, From<&[u32;N]>, From<Vec<u32>>, parse_smt_literal) is applied to every listed input; the result must satisfy is_good(), keep every valid input character unchanged (integer constructors: replace values above 0x2FFFF by 0xFFFD), and ReManager::str / str_in_re must accept it without panicking; closure: every str_* and regex-replace operation applied to all pairs of a pool of good strings, for 1-2 rounds (states = argument pairs, transitions = operation applications); non-trivial = inputs containing a value above 0x2FFFF".into(),
         assumptions: vec!["what happens to Rust characters above U+2FFFF is not prescribed: only 'nothing above 0x2FFFF in the result, and text without such characters is kept unchanged' is required of the &str/String/char constructors".into()],
         exhaustive: true,
-        space: "texts of length <= 2 (thorough 3) over 13 scalar values incl. U+30000, U+3FFFF, U+E0000, U+10FFFF; escape attempts combined with out-of-range characters (a large character after every kind of escape prefix); all literal texts of the C08 families; Rust chars at a stride over the whole scalar range; integer sequences of length <= 3 over 10 values incl. 0x30000, 0x3FFFF, 0x40000, u32::MAX; every integer in bands around 0x2FFFF and 0x3FFFF..0x40010 through the Vec fast path; closure of the string operations over a pool of good strings".into(),
+        space: "texts of length <= 2 (thorough 3) over 13 scalar values incl. U+30000, U+3FFFF, U+E0000, U+10FFFF; escape attempts combined with out-of-range characters (a large character after every kind of escape prefix); all literal texts of the C08 families; Rust chars at a stride over the whole scalar range; integer sequences of length <= 3 over 10 values incl. 0x30000, 0x3FFFF, 0x40000, u32::MAX; vectors of length 7-33 with an out-of-range value at every position; every integer in bands around 0x2FFFF and 0x3FFFF..0x40010 through the Vec fast path; closure of the string operations over a pool of good strings".into(),
     }
 }
 
